@@ -334,20 +334,38 @@ fn judge(c: &DCase, g: &Grouped, target: &std::path::PathBuf) -> Verdict {
     let needs_quote = ops.iter().any(|o| o.file.iter().any(|b| !(b.is_ascii_alphanumeric() || b"/._-".contains(b))));
     let nontrivial = ops.len() >= 2 && groups_in_script.len() >= 2 && needs_quote;
     let mut classes = sig.clone();
+    if c.gopts.transform.is_some() {
+        classes.push("report-from-transform-members-differ-in-size".into());
+    }
     if bash_checked {
         classes.push("bash-executed".into());
     }
     Verdict::Pass { nontrivial, classes }
 }
 
+/// In one case out of five the report comes from `group --transform 'head -c 3'`: files of one
+/// content class but different lengths then share a group, so the members of a group differ in size
+/// (the size check of the dedupe commands is switched off through the report header).
+fn case_strategy() -> proptest::strategy::BoxedStrategy<DCase> {
+    use proptest::prelude::*;
+    (dcase_strategy(profile()), prop::bool::weighted(0.2))
+        .prop_map(|(mut d, tr)| {
+            if tr {
+                d.gopts.transform = Some(crate::grp::Tr { op: crate::grp::TrOp::Head(3), io: crate::grp::TrIo::Pipe });
+            }
+            d
+        })
+        .boxed()
+}
+
 pub fn check(tier: Tier) -> i32 {
     let ctx = Ctx::new("C11", tier);
     replay_corpus::<DCase, _>(&ctx, run_case);
-    drive(&ctx, "main", tier.pick(1000, 15000), || dcase_strategy(profile()), run_case);
+    drive(&ctx, "main", tier.pick(1000, 15000), case_strategy, run_case);
     cleanup_process_scratch();
     ctx.finish(
         "exploration",
-        "proptest-generated dedupe scenarios as in C02 (shell-hostile names, hard links, symlinks with -S, roots, priorities, patterns, -n) x remove / link / link --soft / move. Per case: dry run with RAYON_NUM_THREADS 1, 2, 16 (scripts must be identical modulo the random temp suffix and must not touch the tree); script parsed into (kind, file) operations which must follow report group order and equal, as a set and by kind, the changes of a real run on the same tree (inventory diff); 'Would process N files / reclaim X' must equal 'Processed N files / reclaimed X' and N the number of script operations; for remove/link/link --soft the tree is rebuilt identically and the script is executed by bash: resulting tree (paths, types, bytes, symlink targets, hard-link partition) must equal the real run's. Non-trivial = >=2 operations from >=2 groups and a path needing quoting.",
+        "proptest-generated dedupe scenarios as in C02 (shell-hostile names, hard links, symlinks with -S, roots, priorities, patterns, -n) x remove / link / link --soft / move; one report in five comes from `group --transform 'head -c 3'`, so that the members of a group differ in size. Per case: dry run with RAYON_NUM_THREADS 1, 2, 16 (scripts must be identical modulo the random temp suffix and must not touch the tree); script parsed into (kind, file) operations which must follow report group order and equal, as a set and by kind, the changes of a real run on the same tree (inventory diff); 'Would process N files / reclaim X' must equal 'Processed N files / reclaimed X' and N the number of script operations; for remove/link/link --soft the tree is rebuilt identically and the script is executed by bash: resulting tree (paths, types, bytes, symlink targets, hard-link partition) must equal the real run's. Non-trivial = >=2 operations from >=2 groups and a path needing quoting.",
         &["`dedupe` (reflink) is not compared: unsupported on the sandbox file systems, so a real run processes nothing", "access-time priorities are replaced because reading files between the runs changes atimes", "script lines are decoded with fclones' splitter (its agreement with bash is C17's claim); the bash execution is independent of it"],
     )
 }
